@@ -118,7 +118,16 @@ let split_segs line = Str.split (Str.regexp_string " ; ") line
 let () =
   let cases = read_lines Sys.argv.(1) in
   let impls = if Array.length Sys.argv > 2 && Sys.argv.(2) <> "-" then Some (read_lines Sys.argv.(2)) else None in
-  let variant = if Array.length Sys.argv > 3 && Sys.argv.(3) = "defective" then Defective else Repaired in
+  (* variant names: repaired | defective | v<d1><d2><d3><d5> with 0/1 flags *)
+  let variant =
+    if Array.length Sys.argv > 3 then
+      (match Sys.argv.(3) with
+       | "defective" -> defective
+       | "repaired" -> repaired
+       | v when String.length v = 5 && v.[0] = 'v' ->
+         { d1 = (v.[1] = '1'); d2 = (v.[2] = '1'); d3 = (v.[3] = '1'); d5 = (v.[4] = '1') }
+       | _ -> repaired)
+    else repaired in
   List.iteri (fun idx line ->
     if String.trim line = "" then () else
     try
